@@ -199,6 +199,7 @@ structure St where
   tests : List (Str × Str)               -- tests_str as lines (key, value)
   netsStr : Option (Str × Str)           -- nets_str: none = "", some (word, value)
   vmLines : List (Str × (Str × Str))     -- vm_strs: (vm, (word, value)) in order of appearance
+deriving DecidableEq, Repr
 
 def St.init (av : Avail) : St :=
   { useDef := true, vmNoDef := [], selVms := av.vms, pd := [], tests := [], netsStr := none, vmLines := [] }
@@ -269,6 +270,7 @@ structure Config where
   vmStrs : List (Str × List (Str × Str))
   /-- `config["vms_params"]["vms"]` -/
   vms : List Str
+deriving DecidableEq, Repr
 
 /-- `vms_params.get("default_only_<vm>")`: the command line dictionary overrides the configuration -/
 def vmDefault (av : Avail) (pd : List (Str × Str)) (vm : Str) : Option Str :=
